@@ -33,6 +33,9 @@ def gen_family(rng, n_roots=(1, 3), n_cond=(2, 8), n_rdm=(1, 4)):
     if rng.chance(0.5):
         # a strictly increasing numeric descriptor held as ndarray (positions, onsets ...)
         pat_desc['pos'] = {'values': [10 * (i + 1) + 5 for i in range(nc)], 'container': 'array'}
+    if rng.chance(0.2):
+        pat_desc['xyz'] = {'values': [[float(u), u + 0.5] for u in cond_uids], 'container': 'array'}     # one row per condition
+    xyz_r = rng.chance(0.2)
     roots = []
     used = set()
     measure = rng.pick(['euclidean', None, 'corr'])
@@ -49,6 +52,7 @@ def gen_family(rng, n_roots=(1, 3), n_cond=(2, 8), n_rdm=(1, 4)):
                 'descriptors': {'session': rng.pick(sess_vals), **({'subj': rng.pick(sess_vals)} if rng.chance(0.3) else {})},
                 'rdm_desc': {'grp': gen.gen_grouping(rng, nr, typ=rtyp),
                              **({'wgt': {'values': [1.0 + 0.5 * i for i in range(nr)], 'container': 'array'}} if wgt else {}),
+                             **({'roi_xyz': {'values': [[float(u), u * 2.0, 1.0] for u in ru], 'container': 'array'}} if xyz_r else {}),
                              'extra': {'values': ['x%d' % u for u in ru], 'container': rng.pick(['list', 'array'])}},
                 'pat_desc': pat_desc, 'nan_cells': [], 'order': rng.pick(['F', 'S', 'Q']) if rng.chance(0.3) else 'C'}
         if fdtype != 'float64':
@@ -558,7 +562,7 @@ class RdmsOps:
                     for b in order[i + 1:]:
                         if a not in pc or b not in pc:
                             missing.add((rr, min(a, b), max(a, b)))
-            sem = {'ru': ru, 'cu': order, 'missing': missing, 'dropped_keys': ('grp', 'extra', 'pos')}
+            sem = {'ru': ru, 'cu': order, 'missing': missing, 'dropped_keys': ('grp', 'extra', 'pos', 'xyz')}
         s = self.pool.add(res, 'rdms', sem, 'from_partials', [src.sid])
         self.pool.check_rdms(s, 'from_partials')
         # documented loss: only the chosen pattern descriptor survives from_partials (known finding if judged)
